@@ -41,7 +41,7 @@ def gen_extras(rng, name, ast):
             return [rng.choice([0, 1, 2, 5])]
         if r < 0.63:
             # multipliers of a million (weights emulating a priority): objective values of 7-8 digits.  The values are
-            # kept below 10^8 or multiples of the multiplier, see the known finding F16 (CBC's solution file carries 8
+            # kept below 10^8 or multiples of the multiplier, see defect F16 (repaired; CBC's solution file carries 8
             # significant digits)
             n1 = ast['n1']
             bound = n1 * (mr * mr if name == 'minsqcost' else mr)
